@@ -101,6 +101,13 @@ def run(rep):
     fact = 'BaseResponse' in mro_names and not any(n.endswith('Mixin') for n in mro_names)
     exc_attrs, _ = protocol.defined_attrs(repo, httpexc)
     flow_names = base_names   # what every class that can flow there defines: BaseResponse's own attributes
+    rep.rule('R15.a', 'attributes used on next() results are defined by every class that can flow there, or guarded')
+    rep.check('R15.a', '%s::HTTPException::bases' % 'clastic.errors', fact,
+              'HTTPException is a bare BaseResponse (no Response mixins): the hasattr guards of gzip / cache recognise error objects, whose '
+              'body is (re)built later by adapt(), and leave them alone' if fact else
+              'HTTPException now carries werkzeug Response mixins (%s): the hasattr-based pass-through guards of the built-in middlewares no '
+              'longer recognise error objects, so e.g. gzip compresses an error whose body adapt() replaces afterwards (Content-Encoding: gzip '
+              'on a plain body)' % [n for n in mro_names if n.endswith('Mixin') or n == 'Response'], errors, httpexc.node)
     rep.extra['base_response_attrs'] = len(base_attrs)
     rep.extra['httpexception_mro'] = mro_names
     if not fact:
@@ -182,6 +189,18 @@ def run(rep):
                       'body/status mutation happens only under a test on the request: %s' % '; '.join(cond_texts(req_tests)) if ok else
                       'body/status of the next() result is modified without any dominating test on the request '
                       '(every response would change)', mod, mu)
+        # --- R15.b request body untouched: parsing the form consumes wsgi.input, so the endpoint would no longer
+        #     see the raw body (table entry: PostDataMiddleware exists to read the form)
+        BODY_READERS = {'form', 'values', 'files', 'stream', 'data', 'json', 'get_data', 'get_json', 'input_stream'}
+        BODY_TABLE = {'clastic.middleware.form::PostDataMiddleware.request': 'extracts POST form fields by design'}
+        reads = [n for n in walk_body(fi.node) if isinstance(n, ast.Attribute) and n.attr in BODY_READERS and norm(n.value) == 'request']
+        if fi.key in BODY_TABLE:
+            rep.ok('R15.b', fkey(fi, 'request body'), 'table entry: ' + BODY_TABLE[fi.key], mod, fi.node)
+        else:
+            rep.check('R15.b', fkey(fi, 'request body'), not reads, 'does not read / parse the request body' if not reads else
+                      'reads %s: the request body is parsed (and wsgi.input consumed) by a middleware that should be a pass-through, so '
+                      'an endpoint reading the raw body gets nothing' % sorted(set('request.' + n.attr for n in reads)), mod,
+                      reads[0] if reads else fi.node)
         # --- R15.c
         for st in stmts_of(fi.node):
             if not isinstance(st, ast.Try):
